@@ -13,6 +13,9 @@ import io
 import itertools
 
 from core import fseq, fseqs, fbool, fcells, pseq, pseqs, pcells, guarded
+import meshlib as ml
+import used
+import past
 
 PROP = "C04"
 RULE = ("exhaustive: every permutation of length <= N with every symmetry and every rotation count -9..9; every mesh "
@@ -22,7 +25,13 @@ RULE = ("exhaustive: every permutation of length <= N with every symmetry and ev
         "and negative rotation counts, meshes up to length 4 with planted occurrences, sets built from orbit members and "
         "with duplicates, CLI strings (0/1-based, arbitrary separators). non-trivial = the permutation/pattern has "
         "length >= 2 (>= 1 cell for meshes), for equivariance the pattern is non-empty and not longer than the "
-        "permutation; distinct = distinct op lines")
+        "permutation; distinct = distinct op lines; large: every operation again at lengths 9-12, 21-40, 64-70 and a few "
+        "around 200 / 401 / 1000 (permutation symmetries and sets at all of them, mesh symmetries up to 200, containment "
+        "equivariance as far as all three sides answer within ~0.2 s, CLI strings with one long run of digits); objects "
+        "with a past and call histories: on a deterministic selection of lines the arguments are fresh / used / derived "
+        "from a used object (past.mkperm2 / mkmesh2), the line is evaluated twice, the set returned by "
+        "all_symmetry_sets and the list handed over are damaged before the orbit is asked for again (same basis, new "
+        "objects, another orbit member), lazy results are consumed interleaved")
 ASSUMPTIONS = [
     "model/implementation agreement outside the enumerated and sampled inputs is assumed",
     "theorems about Model.containsOne / containsMesh use C01.containsOne_iff / C01.mem_occurrencesIn_iff (C01's proved refinement)",
@@ -47,8 +56,34 @@ def worker_init():
 
 
 # ------------------------------------------------------------------------------------------------ implementation
+# On a deterministic selection of the lines (see impl; every line of the 'large' stream) the objects under test are
+# objects with a past (past.mkperm2 / mkmesh2: fresh / used / derived from a used object through another API
+# route), the line is evaluated twice (both answers must agree), an eighth of those lines are preceded by the
+# neighbouring calls (used.prelude), and the mutable results (the set returned by all_symmetry_sets, the list
+# handed over) are damaged before the call is repeated.
+_DERIVE = [False]
+_BIG = 15
+
+
+_OBJ = {}             # the objects with a past of the current line (the second evaluation runs on the same objects)
+
+
+def _mkP(seq, salt=0):
+    if not _DERIVE[0]:
+        return Perm(seq)
+    key = ("P", tuple(seq), salt)
+    if key not in _OBJ:
+        _OBJ[key] = past.mkperm2(seq, salt)
+    return _OBJ[key]
+
+
 def _mesh(a, b):
-    return MeshPatt(Perm(pseq(a)), pcells(b))
+    if not _DERIVE[0]:
+        return MeshPatt(Perm(pseq(a)), pcells(b))
+    key = ("M", a, b)
+    if key not in _OBJ:
+        _OBJ[key] = past.mkmesh2(pseq(a), pcells(b), 2)
+    return _OBJ[key]
 
 
 def _fmesh(m):
@@ -90,10 +125,74 @@ def _int_or_str(s):
         return s
 
 
+def _longest(a):
+    """length of the longest sequence among the arguments (cell lists do not count)"""
+    return max([t.count(",") + 1 for t in " ".join(a).replace(";", " ").replace("/", " ").split(" ") if "." not in t] or [0])
+
+
+def _clean(op, a):
+    _OBJ.clear()
+    return _impl(op, a)
+
+
 def impl(op, a):
+    n = _longest(a) if op != "cli.lexmin" else (len(a[0]) if a else 0)
+    big = n >= _BIG
+    # selection: every line of the 'large' stream, a twelfth of the lines with a permutation of length >= 7 (the
+    # random streams), 1 in 48 of the short exhaustive lines
+    thr = 3 if op.startswith("m.") or op == "rel.m" else 7     # (the exhaustive mesh streams stop at length 2)
+    _DERIVE[0] = big or used.digest("d~" + op, a) % (12 if n >= thr else 48) == 0
+    if not _DERIVE[0]:
+        return _impl(op, a)
+    if n < 150:
+        used.prelude(op, a, _clean, 8)
+    _OBJ.clear()
+    r1 = _impl(op, a)
+    if n >= 150:
+        _OBJ.clear()
+        return r1
+    r2 = _impl(op, a)             # once more, on the same (now used) objects
+    _OBJ.clear()
+    return r1 if r1 == r2 else used.unstable(r1, r2)
+
+
+def _sym_all(S, as_iter):
+    """all_symmetry_sets; on the selected lines the returned set is emptied and the list that was handed over
+    is extended afterwards, then the orbit is asked for again - with a new list of new objects and with another
+    member of the orbit (the answers must be those of a first call)"""
+    r = symmetry.all_symmetry_sets(iter(S) if as_iter else S)
+    out = _ftuples(sorted(r))
+    if not _DERIVE[0]:
+        return out
+    seqs = [tuple(p) for p in S]
+    r.clear()
+    S.append(Perm((0,)))
+    out2 = _ftuples(sorted(symmetry.all_symmetry_sets([Perm(p) for p in seqs])))
+    out3 = used.quiet(lambda: _ftuples(sorted(symmetry.all_symmetry_sets([Perm(p).rotate(1) for p in seqs]))))
+    return out if out == out2 and out3 in (None, out) else used.unstable(out, "%s~%s" % (out2, out3))
+
+
+def _sym_lexmin(S, as_iter):
+    if _DERIVE[0]:
+        # an earlier caller obtained the orbit (of this basis, and of one of its images) and consumed it
+        used.quiet(lambda: symmetry.all_symmetry_sets(list(S)).clear())
+        used.quiet(lambda: symmetry.all_symmetry_sets([p.inverse() for p in S]).clear())
+    return fseqs(symmetry.lex_min(iter(S) if as_iter else S))
+
+
+def _sym_map(f, S, as_iter):
+    """the elementwise helpers return lazy iterators: on the selected lines one is consumed around a second,
+    complete one over the same list"""
+    if not _DERIVE[0]:
+        return fseqs(list(f(iter(S) if as_iter else S)))
+    full, pieced = used.interleaved(lambda: f(S))
+    return fseqs(full) if full == pieced else used.unstable(fseqs(full), fseqs(pieced))
+
+
+def _impl(op, a):
     if op.startswith("p."):
         k = op[2:]
-        P = lambda: Perm(pseq(a[0]))
+        P = lambda: _mkP(pseq(a[0]))
         f = {"inv": lambda: P().inverse(), "fd": lambda: P().flip_diagonal(), "rev": lambda: P().reverse(),
              "fv": lambda: P().flip_vertical(), "comp": lambda: P().complement(), "fh": lambda: P().flip_horizontal(),
              "rc": lambda: P().reverse_complement(), "fa": lambda: P().flip_antidiagonal()}
@@ -105,7 +204,7 @@ def impl(op, a):
             return guarded(lambda: fseqs(sorted(set(P().all_syms()))))
     if op == "rel.p":
         def f():
-            p, s, t = Perm(pseq(a[0])), int(a[1]), int(a[2])
+            p, s, t = _mkP(pseq(a[0])), int(a[1]), int(a[2])
             return "".join(fbool(x) for x in [
                 p.inverse().inverse() == p, p.reverse().reverse() == p, p.complement().complement() == p,
                 p.complement().reverse() == p.rotate(2), p.reverse().complement() == p.rotate(2),
@@ -140,7 +239,7 @@ def impl(op, a):
         def fcl():
             # the same two objects are first used in the original query (this fills the pattern's
             # memoised search table) and then mapped by the symmetry: images of *used* objects
-            s, p = Perm(pseq(a[1])), Perm(pseq(a[2]))
+            s, p = _mkP(pseq(a[1]), 1), _mkP(pseq(a[2]))
             s.contains(p)
             p.contains(s)
             return fbool(g(s).contains(g(p)))
@@ -148,7 +247,7 @@ def impl(op, a):
     if op == "eq.mesh":
         def f():
             g = a[0]
-            s, m = Perm(pseq(a[1])), _mesh(a[2], a[3])
+            s, m = _mkP(pseq(a[1]), 1), _mesh(a[2], a[3])
             s.contains(m)          # use the objects before mapping them (memoised tables are filled)
             if g == "rev":
                 s2, m2 = s.reverse(), m.reverse()
@@ -162,20 +261,17 @@ def impl(op, a):
         return guarded(f)
     if op.startswith("s."):
         k = op[2:]
-        S = [Perm(p) for p in pseqs(a[0])]
+        S = [_mkP(p, i) for i, p in enumerate(pseqs(a[0]))]
         f = {"rot90": symmetry.rotate_90_clockwise_set, "rot180": symmetry.rotate_180_clockwise_set,
              "rot270": symmetry.rotate_270_clockwise_set, "inv": symmetry.inverse_set, "rev": symmetry.reverse_set,
              "comp": symmetry.complement_set, "anti": symmetry.antidiagonal_set}
         if k in f:
             # handed over alternately as a list and as a one-shot iterator (the helpers accept any iterable)
-            arg = S if len(S) % 2 == 0 else iter(S)
-            return guarded(lambda: fseqs(list(f[k](arg))))
+            return guarded(lambda: _sym_map(f[k], S, len(S) % 2 == 1))
         if k == "all":
-            arg = S if len(S) % 2 == 0 else iter(S)
-            return guarded(lambda: _ftuples(sorted(symmetry.all_symmetry_sets(arg))))
+            return guarded(lambda: _sym_all(S, len(S) % 2 == 1))
         if k == "lexmin":
-            arg = S if len(S) % 2 == 1 else iter(S)
-            return guarded(lambda: fseqs(symmetry.lex_min(arg)))
+            return guarded(lambda: _sym_lexmin(S, len(S) % 2 == 0))
     if op == "cli.lexmin":
         def f():
             buf = io.StringIO()
@@ -251,12 +347,18 @@ def occs(p, s):
 
 
 def contains(s, p):
+    """(long permutations: meshlib.classical_occs_big extends index tuples position by position instead of
+    running through all index subsets - the same definition)"""
+    if len(s) > 14:
+        return bool(ml.classical_occs_big(p, s))
     return any(True for _ in occs(p, s))
 
 
 def mesh_contains(s, p, cells):
     """some occurrence such that no point of s lies in a shaded region"""
     n, k = len(s), len(p)
+    if n > 14:
+        return bool(ml.mesh_occs_big(p, cells, s))
     for c in occs(p, s):
         cols = [-1] + list(c) + [n]
         rows = [-1] + sorted(s[i] for i in c) + [n]
@@ -488,6 +590,125 @@ def big_t(rng):
     return rng.choice([-1, 1]) * (4 * rng.randrange(0, 50) + rng.randrange(4))
 
 
+def _big_perm(rng, n):
+    """random, nearly monotone (a few planted inversions near the ends / the middle), or with a small orbit"""
+    r = rng.random()
+    if r < 0.4:
+        return rand_perm(rng, n)
+    if r < 0.7:
+        return ml.sparse_target(rng, rng.choice([(1, 0), (0, 1), (1, 0, 2), (2, 0, 1)]), n, rng.randrange(1, 4))
+    q = rand_perm(rng, n // 2)
+    q = tuple(sorted(range(len(q)), key=lambda i: q[i]))
+    p = q + tuple(v + len(q) for v in geo_perm(rng.choice(["rev", "inv", "id"]), q))
+    return p + tuple(range(len(p), n))
+
+
+def large_lines(rng, quick):
+    """the 'large' stream: every operation at sizes the other streams never reach - permutations of length 9-12,
+    21-40, 64-70 and a few around 200 / 401 / 1000 (permutation symmetries and sets at all of them; mesh symmetries
+    up to 70 dense and around 200 with few cells; containment equivariance as far as each of the three sides
+    answers a line within about 0.2 s: classical patterns of length <= 3 up to 70 and of length 2 around 200 in
+    targets with few occurrences, mesh patterns like C03)."""
+    lines = []
+    mul = 1 if quick else 6
+    for scale, count in (("S", 150), ("M", 150), ("L", 80), ("X", 30), ("Y", 16), ("Z", 12)):
+        for _ in range(count * mul):
+            n = ml.big_len(rng, scale)
+            fp = fseq(_big_perm(rng, n))
+            r = rng.random()
+            if r < 0.3:
+                lines.append("p.rot %s %d" % (fp, big_t(rng)))
+            elif r < 0.6:
+                lines.append("p.%s %s" % (rng.choice(["inv", "rev", "comp", "rc", "fa", "fd", "fv", "fh"]), fp))
+            elif r < 0.8:
+                lines.append("p.syms %s" % fp)
+            else:
+                lines.append("rel.p %s %d %d" % (fp, big_t(rng), big_t(rng)))
+    # mesh patterns: dense shadings up to 40, few cells beyond
+    for scale, count in (("S", 120), ("M", 60), ("L", 24), ("X", 8)):
+        for _ in range(count * mul):
+            n = ml.big_len(rng, scale)
+            p = _big_perm(rng, n)
+            sh = rand_shading(rng, n) if scale in "SM" and rng.random() < 0.6 else ml.sparse_shading(rng, n, rng.randrange(1, 9))
+            fm = "%s %s" % (fseq(p), fcells(sh))
+            r = rng.random()
+            if r < 0.4:
+                lines.append("m.rot %s %d" % (fm, big_t(rng)))
+            elif r < 0.65:
+                lines.append("m.%s %s" % (rng.choice(["rev", "comp", "inv", "fv", "fh", "fd"]), fm))
+            elif r < 0.85:
+                lines.append("m.syms %s" % fm)
+            else:
+                lines.append("rel.m %s %d %d" % (fm, big_t(rng), big_t(rng)))
+    # containment equivariance: short patterns in long targets
+    for scale, count, kdense, ksparse in (("S", 140, 4, 4), ("M", 110, 3, 3), ("L", 45, 2, 3), ("X", 12, 1, 2), ("Y", 5, 1, 1)):
+        for _ in range(count * mul):
+            n = ml.big_len(rng, scale)
+            dense = rng.random() < 0.5
+            k = rng.randint(1, kdense if dense else ksparse)
+            p = rand_perm(rng, k)
+            if rng.random() < 0.4:
+                s = ml.big_target(rng, p, (), n, dense)
+                g = rng.choice(GS) if rng.random() < 0.8 else "r%d" % big_t(rng)
+                lines.append("eq.cl %s %s %s" % (g, fseq(s), fseq(p)))
+            else:
+                sh = ml.rand_shading(rng, k)
+                s = ml.big_target(rng, p, sh, n, dense)
+                g = rng.choice(MGS) if rng.random() < 0.85 else "r%d" % big_t(rng)
+                lines.append("eq.mesh %s %s %s %s" % (g, fseq(s), fseq(p), fcells(sh)))
+    # long patterns in targets a few points longer
+    for scale, count in (("S", 60), ("M", 30), ("L", 10)):
+        for _ in range(count * mul):
+            k = ml.big_len(rng, scale)
+            p = rand_perm(rng, k)
+            sh = ml.sparse_shading(rng, k)
+            s = ml.inflate(rng, p, sh, rng.randrange(0, 4), cheat=rng.choice([0.0, 0.3]))
+            if rng.random() < 0.3:
+                s = ml.perturbed(rng, s)
+            if rng.random() < 0.4:
+                lines.append("eq.cl %s %s %s" % (rng.choice(GS), fseq(s), fseq(p)))
+            else:
+                lines.append("eq.mesh %s %s %s %s" % (rng.choice(MGS), fseq(s), fseq(p), fcells(sh)))
+    # sets mixing short and long elements, several long ones together, members of one orbit
+    for scale, count in (("S", 120), ("M", 80), ("L", 40), ("X", 12), ("Y", 6), ("Z", 4)):
+        for _ in range(count * mul):
+            S = []
+            for _ in range(rng.randrange(1, 5)):
+                r = rng.random()
+                if r < 0.35:
+                    p = rand_perm(rng, rng.randrange(0, 8))
+                elif S and r < 0.6:
+                    p = geo_word(rng.choice(EIGHT), rng.choice(S))
+                else:
+                    p = _big_perm(rng, ml.big_len(rng, scale))
+                S.append(p)
+            S.append(_big_perm(rng, ml.big_len(rng, scale)))
+            rng.shuffle(S)
+            fS = fseqs(S)
+            r = rng.random()
+            if r < 0.35:
+                lines.append("s.all %s" % fS)
+            elif r < 0.75:
+                lines.append("s.lexmin %s" % fS)
+                T = [geo_word(w, p) for w in [rng.choice(EIGHT)] for p in S]
+                rng.shuffle(T)
+                lines.append("s.lexmin %s" % fseqs(T))
+            else:
+                lines.append("s.%s %s" % (rng.choice(["rot90", "rot180", "rot270", "inv", "rev", "comp", "anti"]), fS))
+    # CLI: one long run of digits (standardised with ties), alone or next to short ones
+    for lo, hi, count in ((9, 12, 40), (21, 40, 30), (64, 70, 10), (196, 204, 3)):
+        for _ in range(count * mul):
+            n = rng.randint(lo, hi)
+            parts = ["".join(str(rng.randrange(10)) for _ in range(n))]
+            if lo < 100:
+                for _ in range(rng.randrange(0, 3)):
+                    m = rng.randrange(1, 5)
+                    parts.append("".join(str(v + 1) for v in rand_perm(rng, m)))
+            rng.shuffle(parts)
+            lines.append("cli.lexmin %s" % rng.choice(["_", ",", "x"]).join(parts))
+    return lines
+
+
 def run(ctx):
     rng = ctx.rng
     quick = ctx.tier == "quick"
@@ -688,6 +909,8 @@ def run(ctx):
             s += part + (rng.choice(seps) if i + 1 < len(parts) or rng.random() < 0.2 else "")
         lines.append("cli.lexmin %s" % s if s else "cli.lexmin")
     ctx.compare("random-cli", lines)
+    # ---- large: sizes the other streams never reach
+    ctx.compare("large", large_lines(rng, quick))
     # ---- malformed (glue code): non-permutations, non-integer counts, cells outside the grid
     ctx.compare("malformed", [
         "p.inv 2,1,3", "p.inv 0,5", "p.rot 3,0,1 1", "p.rot 3,1,2 3", "p.rot 5,1,2 3", "p.rot 6,1,2 3", "p.fa 3,1,2",
